@@ -35,7 +35,7 @@ def spell(fields, shape):
     return tpl.replace("%A", " ".join(fields)).replace("%H", fields[0]).replace("%T", rest), opname
 
 
-def _serial(di: bool, q: int, sh: int, k1: int, k2: int, kx: int, ky: int, cfg: int, s0: int, s1: int, s2: int, s3: int, s4: int, s5: int, s6: int) -> bool:
+def _serial(sr: bool, di: bool, q: int, sh: int, k1: int, k2: int, kx: int, ky: int, cfg: int, s0: int, s1: int, s2: int, s3: int, s4: int, s5: int, s6: int) -> bool:
     """
     pre: 0 <= q < len(MUTATIONS) and 0 <= sh < len(SHAPES) and 0 <= k1 <= 3 and 1 <= k2 <= 2 and 1 <= kx <= 2 and 0 <= ky <= 1 and 0 <= cfg <= 3
     pre: 0 <= s0 <= 6 and 0 <= s1 <= 5 and 0 <= s2 <= 4 and 0 <= s3 <= 3 and 0 <= s4 <= 2 and 0 <= s5 <= 1 and s6 == 0
@@ -43,9 +43,11 @@ def _serial(di: bool, q: int, sh: int, k1: int, k2: int, kx: int, ky: int, cfg: 
     pre: thorough() or sh == 0 or (q == 0 and s3 == 0)
     pre: thorough() or q != 5 or (s3 == 0 and s4 == 0 and k1 <= 1 and k2 == 1 and kx == 1)
     pre: not di or q == 5 or (thorough() and sh == 0)
+    pre: not sr or thorough() or (sh <= 1 and s3 == 0)
     post: _
     """
     DI = True if di else False
+    SR = True if sr else False
     Q, OPNAME = spell(pick(q, MUTATIONS), concrete_int(sh, 0, len(SHAPES) - 1))
     KW = {"operation_name": OPNAME} if OPNAME else {}
     if DI:
@@ -57,8 +59,12 @@ def _serial(di: bool, q: int, sh: int, k1: int, k2: int, kx: int, ky: int, cfg: 
     with untraced():
         kinds = {"m1": K1, "m2": K2, "m3": 1, "x": KX, "y": KY}
         blog, glog = [], []
-        base, _ = W.run_blocking(kinds, Q, BlockingExecutor, log=blog, **KW)
-        got, w = run_config(C, kinds, Q, sched, False, log=glog, **KW)
+        W.SAME_ROOT = SR           # the same object type as query and mutation root: the operation KIND decides serial execution, not the root type
+        try:
+            base, _ = W.run_blocking(kinds, Q, BlockingExecutor, log=blog, **KW)
+            got, w = run_config(C, kinds, Q, sched, False, log=glog, **KW)
+        finally:
+            W.SAME_ROOT = False
         if got[0] == "pruned":
             return result(True, False)
         steps = getattr(w, "steps", 0)
@@ -102,11 +108,11 @@ def serial_ok(log, base_log=None):
 CONDITIONS = [
     Cond(
         name="serial", fn=_serial, quick=240, thorough=900, per_path=60, shards_quick=16, shards_thorough=20,
-        bound="6 mutation operations (1..3 top-level fields, nested custom sub-resolvers, aliases of the same field, meta-fields between the mutations) x introspection enabled / disabled x %d spellings of the same top-level fields (plain, named / typed inline / untyped inline / directive inline fragment, "
+        bound="6 mutation operations (1..3 top-level fields, nested custom sub-resolvers, aliases of the same field, meta-fields between the mutations) x introspection enabled / disabled x separate root types or ONE object type as query and mutation root x %d spellings of the same top-level fields (plain, named / typed inline / untyped inline / directive inline fragment, "
               "nested fragments, split between selection and fragment, selected by name among several operations; quick: all spellings for the 3-field operation only, 4th completion choice fixed) x" % len(SHAPES) + " resolver kinds (m1: default/value/ResolverError/ValueError; m2, x: value/ResolverError; y: default/value) "
               "x 4 configurations x EVERY completion order (<= 7 in-flight tasks)",
-        symbolic={"di": "choice: disable_introspection", "q": "choice: operation", "sh": "choice: spelling", "k1,k2,kx,ky": "choice: resolver kinds / failure position", "cfg": "choice", "s0..s6": "choice: completion order"},
+        symbolic={"sr": "choice: shared root type", "di": "choice: disable_introspection", "q": "choice: operation", "sh": "choice: spelling", "k1,k2,kx,ky": "choice: resolver kinds / failure position", "cfg": "choice", "s0..s6": "choice: completion order"},
         assumptions=["as C08 (stub pool, DetLoop); 'invoked' = the moment the resolver body runs, which the stub pool delays until the schedule picks the task"],
-        witness={"di": False, "q": 0, "sh": 1, "k1": 1, "k2": 1, "kx": 1, "ky": 1, "cfg": 1, "s0": 0, "s1": 0, "s2": 0, "s3": 0, "s4": 0, "s5": 0, "s6": 0},
+        witness={"sr": False, "di": False, "q": 0, "sh": 1, "k1": 1, "k2": 1, "kx": 1, "ky": 1, "cfg": 1, "s0": 0, "s1": 0, "s2": 0, "s3": 0, "s4": 0, "s5": 0, "s6": 0},
     ),
 ]
